@@ -83,22 +83,33 @@ def import_cases(ctx, al):
                  subdir=kw.get("subdir", rnd.random() < 0.3))
         cases.append(c)
 
-    singles = uni if not ctx.quick else rnd.sample(uni, min(len(uni), 500))
+    good = [m for m in uni if m["kind"] == "file" and m["body"] == "zip" and not m["cut"] and m["type"] == "reg"
+            and not m["after"] and ".." not in m["before"] and m["key"] not in ("..",)]
+    CJDUP = dict(CJNEW, body="cjdup")
+    # deterministic core: the happy path, the duplicate check, the lock
+    for g in good[:6]:
+        mk([CJNEW, g, EXPORT], nodup=False, subdir=False)
+        mk([g, EXPORT], nodup=True)
+        mk([g, g, EXPORT], nodup=True)
+    mk([CJDUP, good[0], EXPORT], nodup=False)
+    mk([CJDUP, good[0], EXPORT], nodup=True)
+    mk([CJDUP], nodup=False)
+    mk([good[0], EXPORT], lockheld=True)
+    singles = rnd.sample(uni, min(len(uni), ctx.pick(120, 1200)))
     for m in singles:
         mk([m])
-    wrapped = uni if not ctx.quick else rnd.sample(uni, min(len(uni), 400))
+    wrapped = rnd.sample(uni, min(len(uni), ctx.pick(120, 600)))
     for m in wrapped:
         if not m["cut"]:
             mk([CJNEW, m, EXPORT])
-    for _ in range(ctx.pick(900, 15000)):
+    for _ in range(ctx.pick(200, 1200)):
         n = rnd.choice([2, 2, 3, 3, 4])
         ms = [rnd.choice(uni) for _ in range(n)]
+        if rnd.random() < 0.6:
+            ms[0] = rnd.choice(good)        # bias towards streams that get past the first member
+        if rnd.random() < 0.3:
+            ms[1] = rnd.choice(good)
         if rnd.random() < 0.5:
-            # bias towards streams that get past the first members
-            good = [m for m in uni if m["kind"] == "file" and m["body"] == "zip" and not m["cut"] and m["type"] == "reg"
-                    and not m["after"] and ".." not in m["before"]]
-            ms[0] = rnd.choice(good)
-        if rnd.random() < 0.4:
             ms.insert(rnd.randrange(len(ms) + 1), EXPORT)
         mk(ms, end=rnd.choice(["clean", "clean", "cuthdr"]), lockheld=rnd.random() < 0.03)
     return cases
@@ -140,7 +151,7 @@ def restore_cases(ctx, al):
            {x: True for x in both}, {x: "none" for x in both}, k, "unset", "none")
     mk(both, {x: slots for x in both}, {x: {"common": "absent", "rev": "absent"} for x in both},
        {x: False for x in both}, {"sys": "none", "usr": "hash"}, 0, "same", "none")
-    for _ in range(ctx.pick(260, 5000)):
+    for _ in range(ctx.pick(50, 400)):
         rand_case()
     return cases
 
@@ -331,8 +342,8 @@ def run(ctx):
                 st = ev["obs"].get("state", ev["obs"]) if ev["ev"] != "RStart" else ev["obs"]
                 abstract.add(("r", ev["ev"], str(sorted(st.get("slots", {}).items())), str(sorted(st.get("asides", {}).items()))))
         outcomes[k] = outcomes.get(k, 0) + 1
-    for k, n in (("import/none", 20), ("import/error", 50), ("import/dup", 3), ("restore/failed", 20), ("restore/restored", 20)):
-        if outcomes.get(k, 0) < n:
+    for k, n in (("import/none", 10), ("import/error", 30), ("import/dup", 1), ("restore/failed", 10), ("restore/restored", 10)):
+        if not violations and outcomes.get(k, 0) < n:
             raise InfraError("vacuity guard: only %d real executions with outcome %s (%s)" % (outcomes.get(k, 0), k, outcomes))
     notes = []
     if ancestors_left:
